@@ -2921,6 +2921,16 @@ transmit_error_response_len (struct MHD_Connection *connection,
   if (MHD_NO == build_header_response (connection))
   {
     /* No memory. Release everything. */
+    /* The strings given to the application are about to be destroyed,
+       the application must be informed before that, not after. */
+    if ( (NULL != connection->daemon->notify_completed) &&
+         (connection->rq.client_aware) )
+      connection->daemon->notify_completed (
+        connection->daemon->notify_completed_cls,
+        connection,
+        &connection->rq.client_context,
+        MHD_REQUEST_TERMINATED_WITH_ERROR);
+    connection->rq.client_aware = false;
     connection->rq.version = NULL;
     connection->rq.method = NULL;
     connection->rq.url = NULL;
